@@ -4,8 +4,10 @@ package main
 // Real code exercised: VisitJSON (default and MultiErrors) on values whose every string leaf is a unique marker;
 // the Reason of every SchemaError at every nesting level (Origin chains included) and the messages rendered with
 // details disabled / with a reason-only customizer are searched for markers, and the top-level reason texts are
-// compared with the model's rendered reason fragments. Through the request validator: ValidateRequest with
-// WithCustomSchemaErrorFunc(reason only) on JSON bodies carrying the same markers.
+// compared with the model's rendered reason fragments. Through openapi3filter with WithCustomSchemaErrorFunc(reason only):
+// ValidateRequest on JSON bodies and content-described query parameters, ValidateResponse on JSON bodies and — for
+// string values — on a response HEADER declared with the schema, each fail-first and with MultiError; the texts of
+// RequestError / ResponseError / MultiError .Error() and the Title/Source that ConvertErrors derives are searched too.
 
 import (
 	"bytes"
@@ -33,14 +35,14 @@ func init() {
 	hx.Register(&hx.Prop{
 		ID: "C19",
 		Rule: "the schema space of C01/C12 crossed with a value alphabet in which every string leaf is a unique marker (all JSON types, nested; strings of lengths 4–12 so that " +
-			"length, pattern, enum, format, type and composition keywords fail at depth 0–2); every Reason at every nesting level and three message paths are searched for markers; " +
+			"length, pattern, enum, format, type and composition keywords fail at depth 0–2); every Reason at every nesting level and every message path assembled from reasons " +
+			"(customizer fail-first/multi, details disabled, RequestError and ResponseError texts of body / parameter / response body / response header, fail-first/multi, ConvertErrors titles) are searched for markers; " +
 			"reason texts are compared with the model. Non-trivial = the value is rejected with at least one error (the driver reports field and nesting).",
 		Exhaustive: true,
 		Gen:        genC19,
 		Run:        runC19,
 		Compare:    cmpC19,
 		Shrink:     shrinkSchemaCase,
-		Workers:    1, // the details switch is a package variable: cases toggle it and must not overlap
 		Assumptions: []string{
 			"markers are strings that occur in no schema; property names and numbers are not markers (the property speaks of string values)",
 			"validator/regexp-compiler texts inside reasons are matched as wildcards (their wording is the validator's, checked for markers only)",
@@ -174,69 +176,176 @@ func topReasons(err error) []any {
 	return out
 }
 
+// c19Mu: the details switch is a package variable. Everything that runs with the default setting holds the read lock;
+// the short section that validates and renders with details disabled holds the write lock.
+var c19Mu sync.RWMutex
+
+func reasonOnly(e *openapi3.SchemaError) string { return e.Reason }
+
+// isParseErr: a value that does not decode as the parameter / header is quoted by the PARSE error — not a schema error
+func isParseErr(e error) bool {
+	var pe *openapi3filter.ParseError
+	return errors.As(e, &pe)
+}
+
+// c19Request validates value v, sent as a JSON body (op with a request body) or as a content-described query parameter,
+// through the request validator with a reason-only schema-error function; returns the errors whose text comes from schema errors.
+func c19Request(s *openapi3.Schema, body []byte, asParam bool, multi bool) (schemaErr error, full error) {
+	opts := &openapi3filter.Options{MultiError: multi}
+	opts.WithCustomSchemaErrorFunc(reasonOnly)
+	var op *openapi3.Operation
+	var req *http.Request
+	method := "POST"
+	if asParam {
+		method = "GET"
+		prm := &openapi3.Parameter{Name: "p", In: "query", Content: openapi3.NewContentWithJSONSchemaRef(&openapi3.SchemaRef{Value: s})}
+		op = &openapi3.Operation{Responses: openapi3.NewResponses(), Parameters: openapi3.Parameters{&openapi3.ParameterRef{Value: prm}}}
+		q := url.Values{"p": []string{string(body)}}
+		req, _ = http.NewRequest("GET", "http://example.com/x?"+q.Encode(), nil)
+	} else {
+		op = &openapi3.Operation{Responses: openapi3.NewResponses(),
+			RequestBody: &openapi3.RequestBodyRef{Value: openapi3.NewRequestBody().WithJSONSchemaRef(&openapi3.SchemaRef{Value: s})}}
+		req, _ = http.NewRequest("POST", "http://example.com/x", bytes.NewReader(body))
+		req.Header.Set("Content-Type", "application/json")
+	}
+	item := &openapi3.PathItem{}
+	item.SetOperation(method, op)
+	in := &openapi3filter.RequestValidationInput{Request: req, Options: opts,
+		Route: &routers.Route{Spec: &openapi3.T{}, Path: "/x", PathItem: item, Method: method, Operation: op}}
+	e := openapi3filter.ValidateRequest(context.Background(), in)
+	if e == nil {
+		return nil, nil
+	}
+	var flat []error
+	flattenErrs(e, &flat)
+	var se openapi3.MultiError
+	for _, fe := range flat {
+		var re *openapi3filter.RequestError
+		if errors.As(fe, &re) && re.Err != nil && !isParseErr(re.Err) {
+			se = append(se, re.Err)
+		} else {
+			return nil, nil // rejected before / besides schema validation (decoding): its text is not assembled from reasons
+		}
+	}
+	if len(se) == 0 {
+		return nil, nil
+	}
+	return se, e
+}
+
+// c19Response validates v as the JSON body of a response, or (a string) as the value of a response header with schema s,
+// through the response validator with a reason-only schema-error function.
+func c19Response(s *openapi3.Schema, body []byte, header *string, multi bool) error {
+	opts := &openapi3filter.Options{MultiError: multi, IncludeResponseStatus: true}
+	opts.WithCustomSchemaErrorFunc(reasonOnly)
+	resp := openapi3.NewResponse().WithDescription("d")
+	h := http.Header{}
+	if header != nil {
+		resp.Headers = openapi3.Headers{"X-Verif": &openapi3.HeaderRef{Value: &openapi3.Header{Parameter: openapi3.Parameter{Schema: &openapi3.SchemaRef{Value: s}}}}}
+		h.Set("X-Verif", *header)
+	} else {
+		resp.Content = openapi3.NewContentWithJSONSchemaRef(&openapi3.SchemaRef{Value: s})
+		h.Set("Content-Type", "application/json")
+	}
+	op := &openapi3.Operation{Responses: openapi3.NewResponses(openapi3.WithStatus(200, &openapi3.ResponseRef{Value: resp}))}
+	req, _ := http.NewRequest("GET", "http://example.com/x", nil)
+	rin := &openapi3filter.RequestValidationInput{Request: req, Options: opts,
+		Route: &routers.Route{Spec: &openapi3.T{}, Path: "/x", PathItem: &openapi3.PathItem{Get: op}, Method: "GET", Operation: op}}
+	in := &openapi3filter.ResponseValidationInput{RequestValidationInput: rin, Status: 200, Header: h, Options: opts}
+	in.SetBodyBytes(body)
+	e := openapi3filter.ValidateResponse(context.Background(), in)
+	if e == nil || isParseErr(e) {
+		return nil
+	}
+	var re *openapi3filter.ResponseError
+	if errors.As(e, &re) && re.Err != nil {
+		if _, isSchema := re.Err.(*openapi3.SchemaError); isSchema {
+			return e
+		}
+		if _, isMulti := re.Err.(openapi3.MultiError); isMulti {
+			return e
+		}
+	}
+	return nil
+}
+
 func runC19(c hx.Case) any {
-	openapi3.SchemaErrorDetailsDisabled = false // the default: reasons are computed while details are enabled
+	c19Mu.RLock()
 	s, err := caseSchema(c)
 	if err != nil {
+		c19Mu.RUnlock()
 		return map[string]any{"kind": "schema-unmarshal-error", "err": err.Error()}
 	}
 	v := plainValue(c["value"])
-	reasonOnly := func(e *openapi3.SchemaError) string { return e.Reason }
 	ed := s.VisitJSON(v)
 	em := s.VisitJSON(v, openapi3.MultiErrors())
 	e2 := s.VisitJSON(v, openapi3.SetSchemaErrorMessageCustomizer(reasonOnly))
-	var e3 error
-	// through the request validator, JSON body, reason-only schema-error function
-	if body, err := json.Marshal(v); err == nil {
-		op := &openapi3.Operation{Responses: openapi3.NewResponses(),
-			RequestBody: &openapi3.RequestBodyRef{Value: openapi3.NewRequestBody().WithJSONSchemaRef(&openapi3.SchemaRef{Value: s})}}
-		req, _ := http.NewRequest("POST", "http://example.com/x", bytes.NewReader(body))
-		req.Header.Set("Content-Type", "application/json")
-		opts := &openapi3filter.Options{}
-		opts.WithCustomSchemaErrorFunc(reasonOnly)
-		in := &openapi3filter.RequestValidationInput{Request: req, Options: opts,
-			Route: &routers.Route{Spec: &openapi3.T{}, Path: "/x", PathItem: &openapi3.PathItem{Post: op}, Method: "POST", Operation: op}}
-		if e := openapi3filter.ValidateRequest(context.Background(), in); e != nil {
-			var re *openapi3filter.RequestError
-			if errors.As(e, &re) && re.Err != nil {
-				e3 = re.Err // the part of the message that comes from the schema error
-			}
+	e2m := s.VisitJSON(v, openapi3.SetSchemaErrorMessageCustomizer(reasonOnly), openapi3.MultiErrors())
+	var reasons []string
+	msgs := []string{} // every message that is assembled from reasons alone
+	add := func(path string, e error) {
+		if e != nil {
+			msgs = append(msgs, path+": "+e.Error())
+			allReasons(e, &reasons, 0)
 		}
 	}
-	// … and as a query parameter described by content (any schema, any JSON value), fail-first and multi-error
-	var e4, e5 error
+	add("customizer", e2)
+	add("customizer/multi", e2m)
+	paths := 0
 	if body, err := json.Marshal(v); err == nil {
-		for _, multi := range []bool{false, true} {
-			prm := &openapi3.Parameter{Name: "p", In: "query", Content: openapi3.NewContentWithJSONSchemaRef(&openapi3.SchemaRef{Value: s})}
-			op := &openapi3.Operation{Responses: openapi3.NewResponses(), Parameters: openapi3.Parameters{&openapi3.ParameterRef{Value: prm}}}
-			q := url.Values{"p": []string{string(body)}}
-			req, _ := http.NewRequest("GET", "http://example.com/x?"+q.Encode(), nil)
-			opts := &openapi3filter.Options{MultiError: multi}
-			opts.WithCustomSchemaErrorFunc(reasonOnly)
-			in := &openapi3filter.RequestValidationInput{Request: req, Options: opts,
-				Route: &routers.Route{Spec: &openapi3.T{}, Path: "/x", PathItem: &openapi3.PathItem{Get: op}, Method: "GET", Operation: op}}
-			if e := openapi3filter.ValidateRequest(context.Background(), in); e != nil {
-				var flat []error
-				flattenErrs(e, &flat)
-				for _, fe := range flat {
-					var re *openapi3filter.RequestError
-					if errors.As(fe, &re) && re.Err != nil {
-						if _, isParse := re.Err.(*openapi3filter.ParseError); isParse {
-							continue // a value that does not decode as the parameter is quoted by the parse error: not a schema error
-						}
-						if multi {
-							e5 = re.Err
-						} else {
-							e4 = re.Err
+		// the request validator: JSON body and content-described query parameter, fail-first and multi-error; the text of
+		// the RequestError itself, and what ConvertErrors / the ValidationError encoder make of it (Title and Source; the
+		// Detail of an enum error quotes the value by design and is not a message assembled from reasons)
+		for _, asParam := range []bool{false, true} {
+			for _, multi := range []bool{false, true} {
+				name := fmt.Sprintf("request-validator/param=%v/multi=%v", asParam, multi)
+				se, full := c19Request(s, body, asParam, multi)
+				add(name+"/schema-error", se)
+				add(name+"/RequestError", full)
+				if full != nil {
+					paths++
+					var flat []error
+					flattenErrs(full, &flat)
+					for _, fe := range flat {
+						if ve, ok := openapi3filter.ConvertErrors(fe).(*openapi3filter.ValidationError); ok {
+							t := ve.Title
+							if ve.Source != nil {
+								t += " @" + ve.Source.Pointer + " " + ve.Source.Parameter
+							}
+							msgs = append(msgs, name+"/ConvertErrors.Title: "+t)
 						}
 					}
 				}
 			}
 		}
+		// the response validator: JSON body, and (string values) a response header with this schema
+		for _, multi := range []bool{false, true} {
+			e := c19Response(s, body, nil, multi)
+			add(fmt.Sprintf("response-validator/body/multi=%v", multi), e)
+			if e != nil {
+				paths++
+			}
+			if str, ok := v.(string); ok {
+				e := c19Response(s, nil, &str, multi)
+				add(fmt.Sprintf("response-validator/header/multi=%v", multi), e)
+				if e != nil {
+					paths++
+				}
+			}
+		}
 	}
-	var reasons []string
-	for _, e := range []error{ed, em, e2, e3, e4, e5} {
+	for _, e := range []error{ed, em} {
 		allReasons(e, &reasons, 0)
+	}
+	c19Mu.RUnlock()
+	// details disabled, as a deployment sets it: before validating (wrapped validator errors are rendered eagerly)
+	if ed != nil {
+		c19Mu.Lock()
+		openapi3.SchemaErrorDetailsDisabled = true
+		add("details-disabled/default", s.VisitJSON(v))
+		add("details-disabled/multi", s.VisitJSON(v, openapi3.MultiErrors()))
+		openapi3.SchemaErrorDetailsDisabled = false
+		c19Mu.Unlock()
 	}
 	leaks := []any{}
 	for _, r := range reasons {
@@ -244,36 +353,12 @@ func runC19(c hx.Case) any {
 			leaks = append(leaks, "reason: "+r)
 		}
 	}
-	// message paths that are assembled from reasons alone
-	msgs := []string{}
-	if e2 != nil {
-		msgs = append(msgs, "customizer: "+e2.Error())
-	}
-	if e3 != nil {
-		msgs = append(msgs, "request-validator: "+e3.Error())
-	}
-	if e4 != nil {
-		msgs = append(msgs, "request-validator/parameter: "+e4.Error())
-	}
-	if e5 != nil {
-		msgs = append(msgs, "request-validator/parameter/multi: "+e5.Error())
-	}
-	// details disabled, as a deployment sets it: before validating (wrapped validator errors are rendered eagerly)
-	openapi3.SchemaErrorDetailsDisabled = true
-	if e := s.VisitJSON(v); e != nil {
-		msgs = append(msgs, "details-disabled/default: "+e.Error())
-		allReasons(e, &reasons, 0)
-	}
-	if e := s.VisitJSON(v, openapi3.MultiErrors()); e != nil {
-		msgs = append(msgs, "details-disabled/multi: "+e.Error())
-	}
-	openapi3.SchemaErrorDetailsDisabled = false
 	for _, m := range msgs {
 		if strings.Contains(m, c19Marker) {
 			leaks = append(leaks, "message "+m)
 		}
 	}
-	return map[string]any{"ok": ed == nil, "leaks": leaks, "dflt": topReasons(ed), "multi": topReasons(em), "nreasons": len(reasons)}
+	return map[string]any{"ok": ed == nil, "leaks": leaks, "dflt": topReasons(ed), "multi": topReasons(em), "nreasons": len(reasons), "npaths": paths}
 }
 
 func decanon(v any) any {
